@@ -42,6 +42,8 @@ def structures(tier, seed=0):
             [([-1, 0, 0, 1], [2, 2, 2, 2]), ([-1, 0], [2, 2])],
             [([-1, 0, 1], [1, 1, 1]), ([-1], [1]), ([-1, 0, 0], [1, 1, 1])],
             [([-1, 0, 0], [2, 1, 3]), ([-1, 0], [1, 2])],
+            # a cell that pads a level, followed by other cells (per-level maxima agree, so the custom back ends accept the network)
+            [([-1, 0, 0], [2, 1, 3]), ([-1, 0, 0], [2, 3, 1])], [([-1, 0, 0], [1, 2, 1]), ([-1, 0], [1, 2]), ([-1, 0, 0], [1, 1, 2])],
             # unbranched cells with different numbers of compartments: refused by the custom implicit back ends, but accepted by
             # jax.sparse and by forward Euler (finding F24: the explicit step reshaped the voltages to (nbranches, -1))
             [([-1], [1]), ([-1], [3])], [([-1], [3]), ([-1], [1])], [([-1], [2]), ([-1], [1]), ([-1], [3])],
